@@ -178,21 +178,38 @@ def _le(fx, a, b, strict, depth):
         return True
     # linear consequence: the goal's slack exceeds a fact's slack by non-negative terms (all atoms are
     # unsigned quantities: sizes, lengths, offsets)
-    if not strict:
-        eg = _lin(b, a)
-        if eg is not None:
-            for f in fx:
-                if f[0] in ("<=", "<", "=="):
-                    ef = _lin(f[2], f[1])
-                    if ef is None:
-                        continue
-                    dc = dict(eg[0])
-                    for k, v in ef[0].items():
-                        dc[k] = dc.get(k, 0) - v
-                    if all(v >= 0 for v in dc.values()) and eg[1] - ef[1] >= 0 and any(k in eg[0] or True for k in ef[0]) and ef[0]:
-                        # require that the fact actually constrains something the goal mentions
-                        if set(ef[0]) & set(eg[0]):
-                            return True
+    eg = _lin(b, a)
+    if eg is not None:
+        gc = eg[1] - (1 if strict else 0)          # integers: a < b  <=>  b - a - 1 >= 0
+        forms = []
+        for f in fx:
+            if f[0] in ("<=", "<"):
+                ef = _lin(f[2], f[1])
+                forms.append((ef[0], ef[1] - (1 if f[0] == "<" else 0)))
+            elif f[0] == "==":
+                ef = _lin(f[2], f[1])
+                forms.append((ef[0], ef[1]))
+                forms.append(({k: -v for k, v in ef[0].items()}, -ef[1]))
+        forms = [x for x in forms if x[0]]
+
+        def covers(parts):
+            dc = dict(eg[0])
+            c = gc
+            atoms = set()
+            for (co, k0) in parts:
+                for k, v in co.items():
+                    dc[k] = dc.get(k, 0) - v
+                    atoms.add(k)
+                c -= k0
+            return all(v >= 0 for v in dc.values()) and c >= 0 and bool(atoms & set(eg[0]))
+        for i, x in enumerate(forms):
+            if covers([x]):
+                return True
+        if len(forms) <= 40:
+            for i, x in enumerate(forms):
+                for y in forms[i + 1:]:
+                    if covers([x, y]):
+                        return True
     return False
 
 
